@@ -245,11 +245,14 @@ CertAlmostSolved(d, o) ==
 \* C02: Farkas-type certificates on the user's data.  The recorder supplies, for the full (f)
 \* or reduced (r) tolerance set: bz_s = c*kappa*b'z, its bound -tol_abs(+rounding), the
 \* normalised residual lhs_p and its bound -tol_rel*bz_s(+rounding); same for the dual side.
+\* (b'z and q'x are "negative" up to the observer's rounding scale rho = 64 eps sum|terms|: when the
+\* certificate is huge -- e.g. bounds capped at 1e20 with presolve off -- the sign of the recomputed inner
+\* product is not decidable in double precision)
 CertPinf(o, w) ==
-  /\ IsNeg(o.bz) /\ FLt(o.bz_s, w.neg_abs_p) /\ FLt(o.lhs_p, w.thr_rel_p)
+  /\ FLt(o.bz, o.bz_rho) /\ FLt(o.bz_s, w.neg_abs_p) /\ FLt(o.lhs_p, w.thr_rel_p)
   /\ FGe(o.zmin, o.margin_floor)
 CertDinf(o, w) ==
-  /\ IsNeg(o.qx) /\ FLt(o.qx_s, w.neg_abs_d) /\ FLt(o.lhs_d, w.thr_rel_d)
+  /\ FLt(o.qx, o.qx_rho) /\ FLt(o.qx_s, w.neg_abs_d) /\ FLt(o.lhs_d, w.thr_rel_d)
   /\ FGe(o.smin, o.margin_floor)
 
 Within(x, lo, hi) == FLe(lo, x) /\ FLe(x, hi)
